@@ -227,6 +227,9 @@ def replay(ctx, payload):
         sc2['sched'] = r['against']['sched']
         runs.append((sc2, driver.run_scenario(sc2, ctx.tmp)))
     print('replay:', [(x.passes[-1]['disk'], sum(p['worked'] for p in x.passes)) for _, x in runs])
+    fl = {}
+    if seq_reference(sc, o.order, fl) is not None and not fl.get('unaltered') and any(p['bug'] != 0 for p in o.passes) and not sc['cfg'].get('die'):
+        ctx.violation('differs-from-sequential', f'the run reported a pass bug (bug={[p["bug"] for p in o.passes]}) although no candidate of this scenario is unaltered', r)
     check_indep(ctx, sc, runs)
 
 
